@@ -340,6 +340,26 @@ func VerifC10SaveAtomic() {
 		} else {
 			verifAssert("C10.failed-save-leaves-old-snapshot-untouched", !exists)
 		}
+		// the fault goes away; nothing changed in the cache meanwhile: the next
+		// save must write the snapshot the failed one did not
+		if verifSymbolic() {
+			verifFS.failOpen, verifFS.failWrite, verifFS.failRename, verifFS.failMarshal = false, false, false, false
+		} else if fail == verifFailOpen {
+			if err := os.Remove(tmp); err != nil {
+				panic(err)
+			}
+		}
+		err2 := cch.Save()
+		verifCover("save-retried-after-failure")
+		// faults that only the file-system model can inject (write, rename,
+		// marshal) have no native replay: they are judged under their own label
+		sfx := ""
+		if fail >= verifFailWrite {
+			sfx = ".fault-only-in-model"
+		}
+		verifAssert("C10.save-after-failed-save-succeeds"+sfx, err2 == nil)
+		data2, isFile2 := verifFSContent(file)
+		verifAssert("C10.save-after-failed-save-leaves-new-snapshot"+sfx, isFile2 && verifBytesEqual(data2, newData))
 	}
 	if verifSymbolic() {
 		for _, w := range verifFS.writes {
